@@ -16,6 +16,7 @@ Fixpoint lbytes_eqb (a b : list bytes) : bool :=
   end.
 
 Definition nn (n : N) : nat := N.to_nat n.
+Definition nb (n : N) : bool := negb (n =? 0).
 
 Definition keys_list (k : keys) : list bytes :=
   [k_client_mac k; k_server_mac k; k_client_key k; k_server_key k; k_client_iv k; k_server_iv k].
@@ -28,7 +29,18 @@ Fixpoint wire_msgs (bodies : list bytes) (ns : list N) : option (list wire_msg) 
   | _, _ => None
   end.
 
-(* function codes 1..19: TLS 1.2 derivation (C10Prf); 13..17 on the wire-order transcript of a live
+(* function code 19: PSK premaster secrets of keys too long to be written out in a case file. The key is
+   head ++ fill^(n - |head| - |tail|) ++ tail; the premaster secret is compared through its length, its
+   first 6 bytes, the 12 bytes from offset n-2 (end of the zero block, second length field, start of the
+   key), its last 6 bytes, the sum of all bytes and (on request) its hash *)
+Definition lastn (k : nat) (l : bytes) : bytes := skipn (length l - k) l.
+Definition long_key (head tail : bytes) (n : nat) (fill : N) : bytes :=
+  head ++ repeat fill (n - length head - length tail) ++ tail.
+Definition premaster_digest (H : hashfn) (with_hash : bool) (n : nat) (pm : bytes) : list bytes :=
+  [be_enc 4 (len pm); firstn 6 pm; firstn 12 (skipn (n - 2) pm); lastn 6 pm; be_enc 8 (fold_left N.add pm 0)]
+  ++ (if with_hash then [h_fn H pm] else []).
+
+(* function codes 1..19: TLS 1.2 derivation (C10Prf); 13..18 on the wire-order transcript of a live
    handshake (C10Transcript) *)
 Definition expected_prf (fn : N) (H : hashfn) (ins : list bytes) (ns : list N) : option (list bytes) :=
   match fn, ins, ns with
@@ -47,6 +59,12 @@ Definition expected_prf (fn : N) (H : hashfn) (ins : list bytes) (ns : list N) :
   | 13, ms :: bodies, _ => option_map (fun w => [finished_client H ms w]) (wire_msgs bodies ns)
   | 14, ms :: bodies, _ => option_map (fun w => [finished_server H ms w]) (wire_msgs bodies ns)
   | 15, bodies, _ => option_map (fun w => [certificate_verify_input12 w]) (wire_msgs bodies ns)
+  | 16, [hint; pub], [curve] => Some [ecdhe_psk_server_key_exchange hint curve pub]
+  | 16, [hint], [] => Some [psk_server_key_exchange hint]
+  | 18, [wcr; lcr; lsec; sec], [] => Some [[if keylog_line_usable wcr lcr lsec sec then 1 else 0]]
+  | 19, [head; tail], [n; fill; wh] =>
+      let psk := long_key head tail (nn n) fill in
+      Some (premaster_digest H (nb wh) (length psk) (psk_premaster psk))
   | 17, pms :: bodies, _ => option_map (fun w => [extended_master_secret_wire H pms w]) (wire_msgs bodies ns)
   | _, _, _ => None
   end.
@@ -84,7 +102,6 @@ Definition expected_layout (fn : N) (H : hashfn) (ins : list bytes) (ns : list N
   | _, _, _ => None
   end.
 
-Definition nb (n : N) : bool := negb (n =? 0).
 
 (* function codes 40..69: HKDF and the DTLS 1.3 schedule / record protection (C10Hkdf, C10Layout) *)
 Definition expected_13 (fn : N) (H : hashfn) (ins : list bytes) (ns : list N) : option (list bytes) :=
@@ -109,6 +126,7 @@ Definition expected_13 (fn : N) (H : hashfn) (ins : list bytes) (ns : list N) : 
   | 55, [hs], [] => Some [master_secret13 H hs]
   | 56, [base], [] => Some [finished_key H base]
   | 61, [exp_master; label], [L] => Some [exporter13 H exp_master label [] (nn L)]
+  | 64, [], [group] => option_map (fun s => [be_enc 2 s]) (ecdsa_scheme13 group)
   | 63, [label; cr; sr], [L] => Some [p_hash H [] (label ++ cr ++ sr) (nn L)]
   | _, _, _ => None
   end.
